@@ -210,6 +210,27 @@ def static_checks(T, name, kwds, c):
     if mt.type(c) is not getattr(mt, name):
         T.violate({'clause': 'type', 'factory': name}, case, 'type(%s(**%r)) is %r' % (name, kwds, mt.type(c)))
         return None
+    # the reported state is a report, not a handle: callers edit it (mystic.mask sets kwds['mask'], tools.no_mask pops
+    # it, users loosen a tolerance to build a variant); a later state() of the same - or of an independently built,
+    # equal - condition must still report the settings the condition was built with
+    try:
+        twin = getattr(mt, name)(**kwds)
+        for k in list(st[doc]):
+            st[doc][k] = ('edited', k)
+        st[doc]['added_by_caller'] = 1
+        for which, cond in (('same condition', c), ('an equal condition built independently', twin)):
+            again = mt.state(cond)
+            T.count('transitions')
+            if list(again.keys()) != [doc] or not _same_kwds(again[doc], kwds):
+                T.violate({'clause': 'state_after_caller_edit', 'factory': name, 'which': which.split()[0]}, case,
+                          'state(%s(**%r)) was edited by its caller; state() of %s now reports %r'
+                          % (name, kwds, which, again))
+                break
+        st = mt.state(c)
+    except Exception as e:
+        T.violate({'clause': 'state_raises', 'factory': name, 'error': type(e).__name__}, case,
+                  'state() after a caller edit raised %s: %s' % (type(e).__name__, e))
+        return None
     try:
         return mt.type(c)(**st[doc])
     except Exception as e:
